@@ -748,6 +748,7 @@ class SsbGraphMinimizer:
                         assert len(out_edges) == 1
                         if (
                             v["op"].id == 0
+                            or v.index == 0
                             or in_edges[0]["loop"]
                             or (
                                 isinstance(v["op"], SsbLabel)
